@@ -8,5 +8,5 @@ MCShapes == JsonDeserialize(IOEnv.VERIF_SHAPES)
 MCProps == {"C02", "C03", "C04", "C07", "C20"}
 MCScript == <<"SetObj", "NewEmpty", "CopyTo", "FreshObj", "CopyFrom">>
 ASSUME PrintT("SHAPES " \o ToJson(MCShapes))
-INSTANCE Session WITH Shapes <- MCShapes, Script <- MCScript, Deep <- MCDeep, Props <- MCProps, ObjMode <- "all", RawMode <- "plans"
+INSTANCE Session WITH Shapes <- MCShapes, Script <- MCScript, Deep <- MCDeep, Props <- MCProps, ObjMode <- "all", RawMode <- "plans", EmptyMode <- "flags"
 ====
